@@ -74,6 +74,46 @@ type Fut struct {
 	Cancels [][2]int64
 	BlockNs int64
 	Far     bool
+	fireRaw time.Time
+}
+
+// wallOnly: the instant carries no monotonic clock reading. time.Time drops it when the wall seconds leave the packed
+// range (deadlines beyond the year 2157: a "practically never" timeout); Sub and After then compare on the wall clock.
+func wallOnly(t time.Time) bool { return t == t.Round(0) }
+
+// relFire puts fu.fireT on the clock of the case (monotonic ns since base). A wall-only deadline is converted through
+// "now" (time remaining on the wall clock, added to now on the monotonic scale); the two clocks are read a few
+// nanoseconds apart and drift against each other, so a value that misses the window [call0+d, call1+d] in which the
+// deadline was computed by less than a millisecond is moved to the nearest end of it (conversion tolerance; a deadline
+// computed from a wrong timeout misses it by the size of the error).
+func relFire(ft, base time.Time, c0, c1, d int64) int64 {
+	if !wallOnly(ft) {
+		return int64(ft.Sub(base))
+	}
+	// median of three conversions: a preemption between the two clock reads inside one time.Now() spoils one sample
+	var vs [3]int64
+	for i := range vs {
+		now := time.Now()
+		vs[i] = int64(now.Sub(base)) + int64(ft.Sub(now.Round(0)))
+	}
+	if vs[0] > vs[1] {
+		vs[0], vs[1] = vs[1], vs[0]
+	}
+	if vs[1] > vs[2] {
+		vs[1], vs[2] = vs[2], vs[1]
+	}
+	if vs[0] > vs[1] {
+		vs[0], vs[1] = vs[1], vs[0]
+	}
+	v := vs[1]
+	const tol = int64(time.Millisecond)
+	if lo := c0 + d; v < lo && lo-v <= tol {
+		v = lo
+	}
+	if hi := c1 + d; v > hi && v-hi <= tol {
+		v = hi
+	}
+	return v
 }
 
 type Result struct {
@@ -236,7 +276,8 @@ func (r *runner) goroutine(g int, start chan struct{}, wg *sync.WaitGroup) {
 			r.mu.Lock()
 			fu := &r.futs[i]
 			fu.Created, fu.Call0, fu.Call1, fu.DNs, fu.NonNil = true, c0, c1, int64(d), !a.Nil
-			fu.Fire = int64(ft.Sub(r.base))
+			fu.fireRaw = ft
+			fu.Fire = relFire(ft, r.base, c0, c1, int64(d))
 			fu.BlockNs = a.BlockUs * 1000
 			fu.Far = a.Far
 			r.handles[i] = h
@@ -489,7 +530,11 @@ func Run(sc Scenario, seed uint64) Result {
 				res.Unknown++
 				id = 900000 + l.Pos
 			}
-			s.Heap = append(s.Heap, Slot{ID: id, Idx: l.Idx, Fire: int64(l.FireT.Sub(r.base))})
+			fire := int64(l.FireT.Sub(r.base))
+			if ok && l.Fu != nil && id < len(r.futs) && wallOnly(l.FireT) && r.futs[id].fireRaw.Equal(l.FireT) {
+				fire = r.futs[id].Fire // the same deadline as recorded at Call: the same instant on the case's clock
+			}
+			s.Heap = append(s.Heap, Slot{ID: id, Idx: l.Idx, Fire: fire})
 		}
 		s.raw = nil
 	}
